@@ -512,6 +512,33 @@ fn run(ctx: &mut Ctx) {
     for c in children {
         ctx.absorb(c);
     }
+    // many erroneous items, then a deeply nested datum, through the four ways of
+    // iterating: whatever an error leaves behind in one API (a level of the
+    // nesting budget, a pending closer) shows as a disagreement on the last item
+    {
+        let frags = [")", "')", "`)", ",)", ",@)", "'')", "']", "(')", "#(')", "(a ')", "(1 . )", "(1 . 2 3)", "#(1 . 2)", "(. 1)", "#u8(300)", "#u8(a)", "#foo", "#\\spac", "1a#", "(a . b c)", "[)", "(]", "#:", "#|"];
+        let mut cases = Vec::new();
+        for f in frags {
+            for k in [1usize, 50, 130, 300] {
+                for (open, close) in [("(", ")"), ("#(", ")"), ("'", ""), ("(a . (", "))")] {
+                    for depth in [60usize, 100, 126] {
+                        let levels = if open == "(a . (" { depth / 2 } else { depth };
+                        let mut t = String::new();
+                        for _ in 0..k {
+                            t.push_str(f);
+                            t.push('\n');
+                        }
+                        t.push_str(&open.repeat(levels));
+                        t.push('x');
+                        t.push_str(&close.repeat(levels));
+                        t.push_str("\nend");
+                        cases.push(Case::Iter { input: t.into_bytes(), q: 0 });
+                    }
+                }
+            }
+        }
+        ctx.par_sweep("after-errors", cases.into_par_iter(), |c| check_case(&c));
+    }
     // long streams, in child processes on a 2 MiB stack: hundreds of thousands
     // of comment lines, blank bytes or complete datums in one stream; every
     // datum comes out, in order, and then the end (a reader that pays stack or
